@@ -15,7 +15,3 @@ func VerifTopoNode(store storage.Store) *Node {
 	return node
 }
 
-// VerifStop ends the statistics goroutine started by getTopologyCounter.
-func (node *Node) VerifStop() {
-	close(node.done)
-}
